@@ -167,6 +167,15 @@ func isStreamRead(info *types.Info, call *ast.CallExpr) (bool, ast.Expr) {
 	if strings.HasSuffix(fn, "/pkg/obiformats.readFull") && len(call.Args) > 0 {
 		return true, call.Args[0]
 	}
+	// a reading helper of the module, whatever its name: f(io.Reader, []byte) (int, error)
+	if f := callee(info, call); f != nil && f.Pkg() != nil && strings.HasPrefix(f.Pkg().Path(), modPath) && len(call.Args) == 2 {
+		if sig, ok := f.Type().(*types.Signature); ok && sig.Recv() == nil && sig.Params().Len() == 2 && sig.Results().Len() == 2 {
+			if sinkTypeName(sig.Params().At(0).Type()) == "io.Reader" && sig.Params().At(1).Type().String() == "[]byte" &&
+				sig.Results().At(0).Type().String() == "int" && isErrorType(sig.Results().At(1).Type()) {
+				return true, call.Args[0]
+			}
+		}
+	}
 	if sel, ok := call.Fun.(*ast.SelectorExpr); ok {
 		switch sel.Sel.Name {
 		case "Read", "Peek", "ReadRune", "ReadByte", "ReadLine", "ReadString", "ReadBytes":
